@@ -42,10 +42,10 @@ theorem Row.le_merge_of_compat {a b : Row n} (h : a.compat b = true) : a.le (a.m
 
 /-- evalLazyJoin: evaluate the right side under each left solution -/
 theorem pushdown_join_lazy {μ0 : Row n} {A B XA : List (Row n)} {XB : Row n → List (Row n)}
-    (ha : XA.Perm (push μ0 A)) (hb : ∀ x, (XB x).Perm (push x B)) :
+    (ha : XA.Perm (push μ0 A)) (hb : ∀ x ∈ push μ0 A, (XB x).Perm (push x B)) :
     (XA.flatMap fun x => (XB x).map fun y => y.merge x).Perm (push μ0 (joinBag A B)) := by
   refine (List.Perm.flatMap_right _ ha).trans ?_
-  refine (List.Perm.flatMap_left _ (fun x _ => (hb x).map _)).trans ?_
+  refine (List.Perm.flatMap_left _ (fun x hx => (hb x hx).map _)).trans ?_
   apply List.Perm.of_eq
   simp only [push, joinBag, flatMap_filterMap, List.filterMap_flatMap]
   apply List.flatMap_congr
